@@ -141,7 +141,15 @@ func (lh *WorkerLoop) ValidateBlockConsensus(ctx context.Context, block interfac
 		return errors.Errorf("ValidateBlockConsensus: nil blockProof")
 	}
 
-	blockProof := protocol.BlockProofReader(blockProofBytes)
+	blockProof, err := readBlockProof(blockProofBytes)
+	if err != nil {
+		return errors.Wrapf(err, "ValidateBlockConsensus: cannot read blockProof")
+	}
+	if len(maybePrevBlockProofBytes) > 0 {
+		if _, err := readBlockProof(maybePrevBlockProofBytes); err != nil {
+			return errors.Wrapf(err, "ValidateBlockConsensus: cannot read prevBlockProof")
+		}
+	}
 	blockRefFromProof := blockProof.BlockRef()
 	if blockRefFromProof.MessageType() != protocol.LEAN_HELIX_COMMIT {
 		return errors.Errorf("ValidateBlockConsensus: Message is not COMMIT, it is %v", blockRefFromProof.MessageType())
@@ -216,6 +224,23 @@ func (lh *WorkerLoop) ValidateBlockConsensus(ctx context.Context, block interfac
 	lh.logger.Debug("ValidateBlockConsensus PASSED for blockHeight=%s", block.Height())
 
 	return nil
+}
+
+// the readers slice the buffer by the sizes written inside it, so malformed bytes make them panic:
+// read every nested field once, and report bytes that cannot be read as an error
+func readBlockProof(blockProofBytes []byte) (blockProof *protocol.BlockProof, err error) {
+	defer func() {
+		if r := recover(); r != nil {
+			blockProof = nil
+			err = errors.Errorf("malformed blockProof: %v", r)
+		}
+	}()
+	blockProof = protocol.BlockProofReader(blockProofBytes)
+	if !blockProof.IsValid() {
+		return nil, errors.New("malformed blockProof")
+	}
+	_ = blockProof.String()
+	return blockProof, nil
 }
 
 func (lh *WorkerLoop) onCommit(ctx context.Context, block interfaces.Block, blockProofBytes []byte) error {
